@@ -1,0 +1,100 @@
+//go:build verif
+
+// Contracts for SparseStore, checked by /verif (govc). Comment-only: this file adds no code.
+
+package store
+
+// The abstract content of the map-backed store: index -> weight (absent = 0).
+//@ fun MView(s *SparseStore, k int) real := s.counts[k]
+//@ fun MTot(s *SparseStore) real := SetSum(vals(s.counts), dom(s.counts))
+// every stored weight is positive, keys are 32-bit indexes
+//@ pred MInv(s *SparseStore) := s.counts != nil && (forall k int :: has(s.counts, k) ==> s.counts[k] > 0.0 && in32(k))
+
+//@ footprint SparseStore(s) := s, s.counts
+
+//@ func NewSparseStore
+//@   serves C04 C15
+//@   ensures result != nil && fresh(result) && fresh(result.counts) && MInv(result) && (forall k int :: !has(result.counts, k)) && len(result.counts) == 0
+
+//@ func SparseStore.Add
+//@   serves C04 C01
+//@   requires MInv(s) && in32(index)
+//@   ensures MInv(s) && s.counts == old(s.counts)
+//@   ensures view: forall k int :: MView(s, k) == old(MView(s, k)) + (k == index ? 1.0 : 0.0)
+//@   ensures total: MTot(s) == old(MTot(s)) + 1.0
+//@   modifies s.counts
+//@   hint SetSumUpdateIn(old(vals(s.counts)), old(dom(s.counts)), index, old(s.counts[index]) + 1.0), SetSumUpdateNew(old(vals(s.counts)), old(dom(s.counts)), index, 1.0)
+
+//@ func SparseStore.AddWithCount
+//@   serves C04 C01 C02
+//@   requires MInv(s) && in32(index) && count >= 0.0
+//@   ensures MInv(s) && s.counts == old(s.counts)
+//@   ensures view: forall k int :: MView(s, k) == old(MView(s, k)) + (k == index ? count : 0.0)
+//@   ensures total: MTot(s) == old(MTot(s)) + count
+//@   modifies s.counts
+//@   hint SetSumUpdateIn(old(vals(s.counts)), old(dom(s.counts)), index, old(s.counts[index]) + count), SetSumUpdateNew(old(vals(s.counts)), old(dom(s.counts)), index, count)
+
+//@ func SparseStore.AddBin
+//@   serves C04
+//@   requires MInv(s) && in32(bin.index) && bin.count >= 0.0
+//@   ensures MInv(s) && s.counts == old(s.counts)
+//@   ensures view: forall k int :: MView(s, k) == old(MView(s, k)) + (k == bin.index ? bin.count : 0.0)
+//@   ensures total: MTot(s) == old(MTot(s)) + bin.count
+//@   modifies s.counts
+
+//@ func SparseStore.IsEmpty
+//@   serves C04 C12
+//@   requires MInv(s)
+//@   ensures result == (MTot(s) == 0.0)
+//@   ensures result == (forall k int :: !has(s.counts, k))
+//@   hint SetSumOfEmpty(vals(s.counts), dom(s.counts)), SetSumPosEx(vals(s.counts), dom(s.counts))
+
+//@ func SparseStore.TotalCount
+//@   serves C04 C12 C01
+//@   requires MInv(s)
+//@   ensures result == MTot(s)
+//@   loop 1 invariant totalCount == SetSum(vals(s.counts), $visited) && (forall k int :: $visited[k] ==> has(s.counts, k))
+//@   hint SetSumEmpty(vals(s.counts)), SetSumInsert(vals(s.counts), $prev, $key), SetSumCong(vals(s.counts), vals(s.counts), $visited, dom(s.counts))
+
+//@ func SparseStore.MaxIndex
+//@   serves C04 C12
+//@   requires MInv(s)
+//@   ensures empty: (forall k int :: !has(s.counts, k)) ==> result1 != nil
+//@   ensures max: (exists k int :: has(s.counts, k)) ==> result1 == nil && has(s.counts, result) && (forall k int :: has(s.counts, k) ==> k <= result)
+//@   loop 1 invariant (forall k int :: $visited[k] ==> has(s.counts, k) && k <= maxIndex) && ((maxIndex == 0 - 9223372036854775808 && (forall k int :: !$visited[k])) || $visited[maxIndex])
+
+//@ func SparseStore.MinIndex
+//@   serves C04 C12
+//@   requires MInv(s)
+//@   ensures empty: (forall k int :: !has(s.counts, k)) ==> result1 != nil
+//@   ensures min: (exists k int :: has(s.counts, k)) ==> result1 == nil && has(s.counts, result) && (forall k int :: has(s.counts, k) ==> result <= k)
+//@   loop 1 invariant (forall k int :: $visited[k] ==> has(s.counts, k) && minIndex <= k) && ((minIndex == 9223372036854775807 && (forall k int :: !$visited[k])) || $visited[minIndex])
+
+//@ func SparseStore.Clear
+//@   serves C04 C15
+//@   requires MInv(s)
+//@   ensures MInv(s) && s.counts == old(s.counts) && (forall k int :: !has(s.counts, k)) && MTot(s) == 0.0
+//@   modifies s.counts
+//@   loop 1 invariant s.counts == old(s.counts) && s.counts != nil && (forall k int :: has(s.counts, k) ==> old(has(s.counts, k)) && !$visited[k] && s.counts[k] == old(s.counts[k]))
+//@   hint SetSumOfEmpty(vals(s.counts), dom(s.counts))
+
+//@ func SparseStore.Copy
+//@   serves C04 C14
+//@   requires MInv(s)
+//@   ensures result != nil && fresh(result) && is(result, *SparseStore) && fresh(as(result, *SparseStore).counts) && MInv(as(result, *SparseStore))
+//@   ensures view: forall k int :: MView(as(result, *SparseStore), k) == MView(s, k) && (has(as(result, *SparseStore).counts, k) <==> has(s.counts, k))
+//@   ensures total: MTot(as(result, *SparseStore)) == MTot(s)
+//@   loop 1 invariant countsCopy != nil && fresh(countsCopy) && countsCopy != s.counts && (forall k int :: has(countsCopy, k) <==> $visited[k]) && (forall k int :: $visited[k] ==> has(s.counts, k) && countsCopy[k] == s.counts[k])
+//@   hint SetSumCong(vals(s.counts), vals(countsCopy), dom(s.counts), dom(countsCopy))
+
+// Reweight: every weight is multiplied by w (refused, with no change, for w <= 0)
+//@ func SparseStore.Reweight
+//@   serves C04 C16 C13
+//@   requires MInv(s)
+//@   ensures refuse: w <= 0.0 ==> result != nil && (forall k int :: MView(s, k) == old(MView(s, k))) && MTot(s) == old(MTot(s))
+//@   ensures ok: w > 0.0 ==> result == nil && (forall k int :: MView(s, k) == w * old(MView(s, k)) && (has(s.counts, k) <==> old(has(s.counts, k))))
+//@   ensures total: w > 0.0 ==> MTot(s) == w * old(MTot(s))
+//@   ensures MInv(s) && s.counts == old(s.counts)
+//@   modifies s.counts
+//@   loop 1 invariant w > 0.0 && s.counts == old(s.counts) && (forall k int :: (has(s.counts, k) <==> old(has(s.counts, k))) && s.counts[k] == ($visited[k] ? w * old(s.counts[k]) : old(s.counts[k]))) && (forall k int :: $visited[k] ==> has(s.counts, k))
+//@   hint SetSumScale(old(vals(s.counts)), vals(s.counts), dom(s.counts), w), SetSumCong(old(vals(s.counts)), old(vals(s.counts)), old(dom(s.counts)), dom(s.counts))
